@@ -16,7 +16,10 @@ META = dict(
          "kinds (fixed, chunked, generator streamed / fixed, empty, StopIteration value, write(), binary, 204 / 304 / 102 without Content-Length, "
          "HEAD answered with a body, HTTPError at three sites) x chunkable "
          "combinations is served by ONE Responder that is reset between the two the way Valet does on a persistent connection and parsed by ONE "
-         "re-armed Respondent; both responses must equal what the application produced and leave no bytes behind.",
+         "re-armed Respondent; both responses must equal what the application produced and leave no bytes behind.  Method sequences: every "
+         "sequence of 1-3 requests over HEAD / GET / POST / DELETE on ONE keep-alive Patron against a real Valet (socket doubles), x Patron "
+         "constructed with default method or HEAD x fixed-length or streamed app x requests issued one by one or queued at once; every response "
+         "must match the app's output (no body for HEAD) and leave nothing in the receive buffer.",
     note="Pure product of small sets, no sockets and no arrival schedules (C29 covers those); multipart form bodies, header values outside "
          "latin-1, duplicate header names and HTTPError raised after the head was sent are not exercised.  GET requests "
          "carry no body by ioflo's documented design, so the expected body for GET is empty.",
@@ -529,7 +532,135 @@ def work_pairs(arg):
     return part
 
 
+# --------------------------------------------------------------------------- one Patron, one connection, switching methods
+
+SEQ_METHODS = ["HEAD", "GET", "POST", "DELETE"]
+RESOURCE = b"Hello World, this is the body of the resource."
+_FSM = []
+
+
+def method_sequences():
+    import itertools
+    out = []
+    for n in (1, 2, 3):
+        out += [list(t) for t in itertools.product(SEQ_METHODS, repeat=n)]
+    return out
+
+
+def seq_app_fixed(environ, start):
+    m = environ["REQUEST_METHOD"]
+    body = m.encode("ascii") + b" " + environ["PATH_INFO"].encode("ascii") + b" " + RESOURCE
+    start("200 OK", [("Content-Type", "text/plain"), ("Content-Length", str(len(body))), ("X-Method", m),
+                     ("X-Path", environ["PATH_INFO"]), ("X-Body", environ["wsgi.input"].read().decode("latin-1"))])
+    return [body]
+
+
+def seq_app_streamed(environ, start):
+    m = environ["REQUEST_METHOD"]
+    start("200 OK", [("Content-Type", "text/plain"), ("X-Method", m), ("X-Path", environ["PATH_INFO"]),
+                     ("X-Body", environ["wsgi.input"].read().decode("latin-1"))])
+    yield m.encode("ascii") + b" " + environ["PATH_INFO"].encode("ascii") + b" "
+    yield b""
+    yield RESOURCE
+
+
+def sequence_case(case, ctor_method, appkind, queue, methods, part, replay):
+    """Real Patron <-> real Valet over socket doubles, keep-alive, requests issued with Patron.request()."""
+    from mc import net
+    from ioflo.aio.http import clienting, serving
+    FSM = _FSM[0]
+    fn = net.FakeNet()
+    FSM.net = fn
+    ck = net.clock()
+    valet = serving.Valet(app=seq_app_fixed if appkind == "fixed" else seq_app_streamed, ha=("", 8090), store=ck)
+    if not valet.open():
+        raise core.BrokenCheck("Valet.open failed on the fake net")
+    kw = dict(hostname="127.0.0.1", port=8090, store=ck)
+    if ctor_method is not None:
+        kw["method"] = ctor_method
+    patron = clienting.Patron(**kw)
+    patron.open()
+
+    def bad(field, what):
+        part.violation("patron-sequence|%s" % field, case, "one Patron, requests %s: %s" % (case, what), replay)
+
+    def issue(i):
+        m = methods[i]
+        patron.request(method=m, path="/r%d" % i, body=b"payload-%d" % i if m == "POST" else None)
+
+    if queue == "all-at-once":
+        for i in range(len(methods)):
+            issue(i)
+    for i, m in enumerate(methods):
+        if queue == "one-by-one":
+            issue(i)
+        rsp = None
+        try:
+            for _ in range(10):
+                patron.serviceAll()
+                valet.serviceAll()
+                ck.advance(0.05)
+                if patron.responses:
+                    rsp = patron.responses.popleft()
+                    break
+        except Exception as ex:
+            bad("raises:%s|%s" % (type(ex).__name__, innermost(ex)), "request %d (%s): service loop raised %r" % (i + 1, m, ex))
+            return "raises"
+        if rsp is None:
+            bad("no-response", "request %d (%s) never gets its response (client still parsing: %r buffered)"
+                % (i + 1, m, bytes(patron.connector.rxbs[:50])))
+            return "no-response"
+        path = "/r%d" % i
+        want = b"" if m == "HEAD" else m.encode("ascii") + b" " + path.encode("ascii") + b" " + RESOURCE
+        if rsp["errored"]:
+            bad("errored", "request %d (%s): response errored: %s" % (i + 1, m, rsp["error"]))
+            return "errored"
+        if rsp["status"] != 200 or rsp["reason"] != "OK":
+            bad("status", "request %d (%s): status %r %r" % (i + 1, m, rsp["status"], rsp["reason"]))
+        for k, v in (("x-method", m), ("x-path", path), ("content-type", "text/plain"),
+                     ("x-body", "payload-%d" % i if m == "POST" else "")):
+            if rsp["headers"].get(k) != v:
+                bad("headers", "request %d (%s): header %s is %r, app sent %r" % (i + 1, m, k, rsp["headers"].get(k), v))
+        if appkind == "fixed" and rsp["headers"].get("content-length") != str(len(m) + len(path) + 2 + len(RESOURCE)):
+            bad("headers", "request %d (%s): content-length header %r" % (i + 1, m, rsp["headers"].get("content-length")))
+        if bytes(rsp["body"]) != want:
+            bad("body", "request %d (%s): body %r, expected %r" % (i + 1, m, bytes(rsp["body"]), want))
+        if queue == "one-by-one" or i == len(methods) - 1:
+            if patron.connector.rxbs:
+                bad("leftover", "request %d (%s): %d bytes %r left in the client's receive buffer after the response"
+                    % (i + 1, m, len(patron.connector.rxbs), bytes(patron.connector.rxbs[:40])))
+                return "leftover"
+    if patron.responses:
+        bad("extra-response", "%d more responses than requests" % len(patron.responses))
+    return "ok"
+
+
+def work_sequences(arg):
+    ctor_method, appkind, queue = arg
+    core.use_repo()
+    from mc import net
+    if not _FSM:
+        _FSM.append(net.FakeSocketModule().install())
+    part = core.Part()
+    with core.watchdog(600):
+        for methods in method_sequences():
+            case = "%s  (Patron(method=%s), app %s, requests queued %s)" % (
+                " ".join(methods), ctor_method or "default GET", appkind, queue)
+            out = sequence_case(case, ctor_method, appkind, queue, methods, part,
+                                dict(direction="patron-sequence", constructor_method=ctor_method, app=appkind, queue=queue, methods=methods,
+                                     how="Valet(app).open(); Patron(hostname, port[, method]).open(); Patron.request(method=m, path='/r<i>'); "
+                                         "alternate Patron.serviceAll() / Valet.serviceAll() until patron.responses"))
+            part.evaluations += 1
+            part.nontrivial("seq " + case)
+            switches = sum(1 for a, b in zip([ctor_method or "GET"] + methods, methods) if (a == "HEAD") != (b == "HEAD"))
+            part.outcome("patron-sequence:%d-head-switches:%s" % (switches, out))
+        part.sample(dict(direction="patron-sequence", case=case))
+    return part
+
+
 def work(item):
+    if item[0] == "seq":
+        return work_sequences(item[1])
     if item[0] == "req":
         return work_requests(item[1])
     if item[0] == "pair":
@@ -541,6 +672,7 @@ def run():
     ck = core.Check("C30", "exploration", META["technique"])
     items = [("req", (m, p)) for m in METHODS for p in PATHS] + [("rsp", "normal"), ("rsp", "errors")]
     items += [("pair", i) for i in range(len(PAIRKINDS))]
+    items += [("seq", (c, a, q)) for c in (None, "HEAD") for a in ("fixed", "streamed") for q in ("one-by-one", "all-at-once")]
     ck.merge(core.pmap(work, items))
     ck.coverage_extra = dict(request_dimensions=dict(methods=len(METHODS), paths=len(PATHS), qarg_sets=len(qarg_sets()),
                                                      header_sets=len(HEADERSETS), bodies=len(bodies())),
@@ -559,6 +691,10 @@ def run():
         "the next request on a persistent connection (chunkable = request is HTTP/1.1); the client Respondent is re-armed with makeParser() and "
         "reinit(method=...) as Patron does; pairs whose first response is not delimited (no Content-Length, not chunkable) are skipped because "
         "that response ends the connection; response bodies are read when each response completes",
+        "method sequences: one keep-alive Patron talks to a real Valet over the socket doubles of mc/net.py (natural answers, manual clock); "
+        "every sequence of 1-3 requests over HEAD, GET, POST, DELETE is issued with Patron.request(method=..., path=...), either each after the "
+        "previous response or all queued first, on a Patron constructed with the default method or with method='HEAD'; each response must carry "
+        "the app's status, X-Method / X-Path / X-Body (echo of the request body) / Content-Type (and Content-Length) headers and body (empty for HEAD) and leave the receive buffer empty",
         "by HTTP rules a response to HEAD and any 1xx / 204 / 304 response has no body: the body the client must see for those is empty whatever "
         "the application yields, the application's headers (including a Content-Length on a HEAD response) must still arrive, and no byte of "
         "such a response may stay in the client's receive buffer",
@@ -567,7 +703,8 @@ def run():
     return ck.finish(
         rule="every element of methods x paths x query-arg sets x header sets x bodies (requests) and statuses x header sets x body kinds x "
              "content-length x chunkable plus error sites x error statuses x error headers x chunkable (responses), and every ordered pair of "
-             "the 19 response kinds x 4 chunkable combinations on one reused Responder; each combination is a distinct non-trivial case",
+             "the 19 response kinds x 4 chunkable combinations on one reused Responder, and every method sequence of length 1-3 over 4 methods x 2 constructors x 2 apps x 2 queueing modes on one "
+             "Patron; each combination is a distinct non-trivial case",
         exhaustive=True)
 
 
